@@ -21,6 +21,7 @@ import PycsepVerif.Drive.C17
 import PycsepVerif.Drive.C18
 import PycsepVerif.Drive.Src
 import PycsepVerif.Drive.C18b
+import PycsepVerif.Drive.Text
 -- REGISTER-IMPORT (one `import PycsepVerif.Drive.Cxx` line per property, above this line)
 
 /-- the per-property handlers, tried in order; each returns `none` for ops it does not know -/
@@ -48,6 +49,7 @@ def handlers : List (List String → Option String) := [
   , Drive.C18.handle
   , Drive.Src.handle
   , Drive.C18b.handle
+  , Drive.Text.handle
   -- REGISTER-HANDLER (`, Drive.Cxx.handle` lines above this line)
 ]
 
